@@ -327,7 +327,18 @@ class Weaver:
                 ins.append((pos, '\n' + text + '\n'))
             elif re.fullmatch(r'(before|after)\d*\??', kind):
                 lit = arg
-                cnt = body.count(lit)
+                # occurrences inside text inlined by R19 (between /*R19<*/ and /*R19>*/) are not anchors
+                occs = []
+                depth_r19 = 0
+                for mm_ in re.finditer(r'/\*R19<\*/|/\*R19>\*/|' + re.escape(lit), body):
+                    tok = mm_.group(0)
+                    if tok == '/*R19<*/':
+                        depth_r19 += 1
+                    elif tok == '/*R19>*/':
+                        depth_r19 -= 1
+                    elif depth_r19 == 0:
+                        occs.append(mm_.start())
+                cnt = len(occs)
                 if kind.endswith('?'):
                     # optional anchor: the hint is dropped when the statement is not there (or not unique)
                     kind = kind[:-1]
@@ -339,13 +350,11 @@ class Weaver:
                     kind, occ = mk.group(1), int(mk.group(2))
                     if occ < 1 or occ > cnt:
                         raise ex.ExtractError('%s: anchor `%s` occurrence %d of %d' % (qual, lit, occ, cnt))
-                    pos = -1
-                    for _ in range(occ):
-                        pos = body.index(lit, pos + 1)
+                    pos = occs[occ - 1]
                 else:
                     if cnt != 1:
                         raise ex.ExtractError('%s: anchor `%s` matches %d times' % (qual, lit, cnt))
-                    pos = body.index(lit)
+                    pos = occs[0]
                 if kind == 'before':
                     # start of the line holding the anchor
                     pos = body.rfind('\n', 0, pos) + 1
